@@ -178,3 +178,39 @@ Proof.
   split; [reflexivity|]. split; [reflexivity|]. split; [apply run_schedule_interleave|].
   vm_compute. repeat split.
 Qed.
+
+(* ---------- LINK to the endpoint model (Proofs/LinkWireEndpoint.v) ----------
+   The framing clauses above hold along EVERY schedule of the endpoint model that C01 / C08 / C09 /
+   C16 reason about (Model/Endpoint.v: `out` = the frames handed to the writer under an arbitrary
+   event list).  For every rendering of the abstract payloads as JSON values, every configuration
+   (blocking or awaitable writer, any error hook) and every event list:
+   - the bytes of the run are exactly what the wire model's _send_data / StdoutWriter write for the
+     sending calls that correspond to `out` (one write of header+body and one flush per frame), and
+     the strict decoder returns exactly the bodies of `out`, in order (clauses (i), (ii), (v));
+   - with the awaitable writer `out` is the list of frames whose WriteStep happened: any other event
+     leaves the stream unchanged, a WriteStep appends one whole frame (LinkWireEndpoint.link_awaitable);
+   - with a writer failing from its k-th write on, the stream is a prefix of the working run's stream
+     cut at a frame boundary: whole frames only, decoding to the first k bodies. *)
+From Pygls Require Model.Endpoint Proofs.C15Endpoint Proofs.LinkWireEndpoint.
+Theorem C03_along_endpoint_schedules :
+  forall render_val err_message err_data notif_method notif_params req_method req_params,
+  let rd := LinkWireEndpoint.render render_val err_message err_data notif_method notif_params req_method req_params in
+  let snd_of := LinkWireEndpoint.to_send render_val err_message err_data notif_method notif_params req_method req_params in
+  let bytes := LinkWireEndpoint.stream_of render_val err_message err_data notif_method notif_params req_method req_params in
+  forall (c : Endpoint.cfg) (evs : list Endpoint.ev),
+    let s := Endpoint.run c evs in
+    bytes s = stream (sender_ops LinkWireEndpoint.wire_cfg (map snd_of (Endpoint.out s))) /\
+    spec_decode (bytes s) = Some (map (fun f => dumps (rd f)) (Endpoint.out s)) /\
+    (Endpoint.c_wfail c = None -> forall k,
+       let a := Endpoint.run (C15Endpoint.failing_from c k) evs in
+       (exists rest, bytes s = bytes a ++ rest) /\
+       spec_decode (bytes a) = Some (firstn k (map (fun f => dumps (rd f)) (Endpoint.out s)))).
+Proof.
+  intros rv em ed nm np rm rp rd snd_of bytes c evs s. split; [|split].
+  - apply LinkWireEndpoint.link_stream_is_wire_model.
+  - apply LinkWireEndpoint.stream_of_decodes.
+  - intros WF k a.
+    destruct (LinkWireEndpoint.link_failing_writer rv em ed nm np rm rp c k evs WF) as (_ & (rest & E & _) & D).
+    split; [exists rest; exact E|exact D].
+Qed.
+Print Assumptions C03_along_endpoint_schedules.
